@@ -193,6 +193,9 @@ NAME_POOLS = [
     ["volume", "pan", "freq", "q", "gain", "type", "enable", "mode", "detune", "phase", "rate", "depth", "mix"],
     ["p%d" % i for i in range(14)],
     ["x", "xx", "xxx", "xxxx", "y", "yy", "xy", "yx"],
+    # longer than libstdc++'s 15-byte small-string buffer: a std::string copy of such a name allocates
+    ["oscillator_frequency_coarse", "oscillator_frequency_fine", "filter_cutoff_frequency", "filter_resonance_amount",
+     "envelope_attack_time_ms", "envelope_release_time_ms", "modulation_depth_percent", "global_output_volume_db"],
 ]
 
 QUIET = (14, 15, 18)     # act, acti, dummy: callbacks that never touch data.loc
@@ -410,7 +413,7 @@ def spec_check(case, impl):
     """The property itself, on the implementation's output: nothing was
     allocated, freed or locked inside the RT section."""
     stream = case.split(" ", 1)[0]
-    m = re.match(r"a=(\d+) f=(\d+) l=(\d+) first=(\S+)", impl)
+    m = re.match(r"a=(\d+) f=(\d+) l=(\d+) first=(.*?) \|", impl)
     if not m:
         return "harness: no verdict for this case (%s)" % impl[:300]
     a, f, l = int(m.group(1)), int(m.group(2)), int(m.group(3))
@@ -456,11 +459,23 @@ def pre_proofs(ctx):
                % (len(G["names"]), len(G["defined"]), len(G["entries"]), len(G["forbidden"]),
                   len(callgraph.reachable(G, G["entries"]))))
     if probs:
-        for p in probs[:5]:
-            ctx["log"]("STATIC PATH: %s" % " -> ".join(p["path"]))
-        raise ctx["BuildError"]("the regenerated call graph has a path from an RT entry to a forbidden / "
-                                "not-allowed symbol (Properties_C03 cannot check):\n" +
-                                json.dumps(probs[:6], indent=1))
+        # one line per offending last edge (caller -> forbidden symbol), shortest path first;
+        # kept short because vcheck stores the tail of the message in the replay file
+        best = {}
+        for p in probs:
+            k = tuple(p["path"][-2:])
+            if k not in best or len(p["path"]) < len(best[k]["path"]):
+                best[k] = p
+        lines = []
+        for p in sorted(best.values(), key=lambda q: len(q["path"]))[:6]:
+            what = "forbidden" if "forbidden" in p else "external symbol outside the allow-list"
+            lines.append("RT entry [%s] reaches %s [%s] along: %s"
+                         % (p["entry"], what, p["path"][-1], " -> ".join(p["path"])))
+        for l in lines:
+            ctx["log"]("STATIC PATH: " + l)
+        msg = ("the regenerated call graph has a path from an RT entry point to a forbidden / not-allowed "
+               "symbol, so Properties_C03 cannot check any more (%d offending edge(s)):\n" % len(best))
+        raise ctx["BuildError"](msg + "\n".join(l[:600] for l in lines)[-1700:])
 
 def extra_evidence(ctx):
     G = _diag["graph"]
